@@ -2645,7 +2645,7 @@ static WUR iwrc _lx_del_sblk_lw(struct iwlctx *lx, struct sblk *sblk, uint8_t id
   // Update cursors within sblk removed
   pthread_spin_lock(&db->cursors_slk);
   for (struct iwkv_cursor *cur = db->cursors; cur; cur = cur->next) {
-    if (cur->cn) {
+    if (cur->cn && !(cur->cn->flags & SBLK_DB)) { // cursors parked on the db head/tail reload it on their next move
       if (cur->cn->addr == sblk->addr) {
         if (nb->flags & SBLK_DB) {
           if (!(lx->plower[0]->flags & SBLK_DB)) {
